@@ -1491,8 +1491,15 @@ func (c *Conn) executeQuery(ctx context.Context, qry *Query) *Iter {
 			numRows: x.numRows,
 		}
 
-		if params.skipMeta {
+		if params.skipMeta && x.meta.flags&flagNoMetaData == 0 {
+			// we asked the server to leave the metadata out, it sent it
+			// all the same: it describes these rows
+			iter.meta = x.meta
+		} else if params.skipMeta {
 			if info != nil {
+				if x.meta.colCount != info.response.colCount {
+					return &Iter{framer: framer, err: fmt.Errorf("gocql: result without metadata has %d columns, the prepared statement has %d", x.meta.colCount, info.response.colCount)}
+				}
 				iter.meta = info.response
 				iter.meta.pagingState = copyBytes(x.meta.pagingState)
 			} else {
